@@ -1,5 +1,40 @@
-import TransportVerif.Model.Deadline
-import TransportVerif.Spec.Deadline
+import TransportVerif.Link.Deadline
+import TransportVerif.Proofs.Deadline
+/-
+C09 — Deadline fires exactly when the latest set time passes, never from a stale timer.
+The statements below are FIXED; only the proofs may change.
+-/
 namespace TV.Props.C09
-theorem placeholder : True := trivial
+open TV TV.Deadline TV.DeadlineLink
+
+/-- Main theorem.  For EVERY history of Set(zero | past | future …), clock advances, timer expiries
+    dispatched by the runtime and callbacks that run arbitrarily late (also after further Sets), as
+    long as fewer than 255 callbacks are outstanding at any time (`pending` is a uint8), every step
+    is admitted by C09's judgement: Done is never closed unless the most recent Set gave a
+    non-zero time that has passed (hence never by the timer of a superseded Set), Err agrees with
+    Done, Deadline reports the last Set, whenever nothing is in flight Done is closed exactly when
+    that time has passed, a Set after expiry installs a different, unsignalled channel, and
+    `close` is never applied to a closed channel. -/
+theorem judged09 (ops : List Op)
+    (hK : ∀ s ∈ trace D.new DeadlineSpec.Hist.empty ops, s.outstanding < 255) :
+    ∀ s ∈ trace D.new DeadlineSpec.Hist.empty ops, s.ok = true :=
+  Proofs.Deadline.trace_ok ops D.new DeadlineSpec.Hist.empty Proofs.Deadline.inv_new hK
+
+/-- the excluded point is real: with 256 callbacks outstanding the uint8 wraps and a stale callback
+    signals a deadline that has not passed (documented; shown on the model) -/
+theorem pending_wrap_witness :
+    ∃ ops : List Op, ∃ s ∈ trace D.new DeadlineSpec.Hist.empty ops, s.ok = false :=
+  ⟨Proofs.Deadline.wrapOps, Proofs.Deadline.wrap_bad⟩
+
+/-- `Deadline()` reports the most recently set time after any history -/
+theorem deadline_reports_last_set (ops : List Op) (t : Option Int) :
+    (run D.new (ops ++ [.set t])).obs.deadline = t := by
+  rw [Proofs.Deadline.run_append]
+  exact Proofs.Deadline.set_deadline _ t
+
+-- non-vacuity: the stale-callback history (set 3, time passes, expiry dispatched, set 16, callback runs)
+example : ((trace D.new DeadlineSpec.Hist.empty
+    [.set (some 3), .advance 6, .fire, .set (some 16), .callback]).map (fun s => (s.after.closed, s.ok)))
+  = [(false, true), (false, true), (false, true), (false, true), (false, true)] := by decide
+
 end TV.Props.C09
